@@ -94,8 +94,8 @@ def run_item(item):
                 p = [0.0] * len(pidx)
                 for n, i in pidx.items():
                     p[i] = pt[n]
-                for fname in FUNCS:
-                    dt = None if fname == "rhs" else 0.125
+                for fname in FUNCS + ("monitor_values",):
+                    dt = None if fname in ("rhs", "monitor_values") else 0.125
                     try:
                         a = off.call(fname, pt["t"], s, p, dt=dt)[0]
                     except Exception:
@@ -117,5 +117,5 @@ def run_item(item):
             # by name against the reference (rhs + explicit Euler; the Rush-Larsen formulas are C06/C07's subject)
             def fail2(finding, what, detail):
                 fail(finding + "|ru-on", what, detail)
-            models.check_module(ref, on, res, ID, ("rhs", "explicit_euler"), {"remove_unused": True}, key, fail2, pts=pts)
+            models.check_module(ref, on, res, ID, ("rhs", "explicit_euler", "monitor_values"), {"remove_unused": True}, key, fail2, pts=pts)
     return res
